@@ -226,6 +226,8 @@ def c_type(tokens, structs, enums, has_name=True):
     arr = "[" in toks
     if arr:
         toks = toks[:toks.index("[")]
+        if ptr >= 1:
+            ptr += 1        # an array of pointers in a parameter list is a pointer to pointers ([dcl.fct] adjustment)
     words = [t for t in toks if re.match(r"[A-Za-z_]\w*$", t)]
     is_enum = "enum" in words
     is_struct = "struct" in words
